@@ -1278,6 +1278,12 @@ def gen_masked(trees):
                         kind = ".missing"
                     elif isinstance(out, ast.Name):
                         kind = _out_init(fn, node, out.id)
+                    elif isinstance(out, ast.Call) and attr_chain(out.func) in FILLED_CTORS:
+                        kind = ".filled"          # `out=np.zeros_like(a)` written in place
+                    elif isinstance(out, ast.Call) and attr_chain(out.func) in RAW_CTORS:
+                        kind = ".raw"
+                    elif isinstance(out, ast.Attribute):
+                        kind = ".computed"        # an array the object already holds
                     else:
                         kind = ".unknown"
                     calls.append(f"  ⟨{lstr(mod + '.' + label)}, {ci}, {lstr(ch)}, {kind}⟩")
